@@ -393,6 +393,9 @@ impl Scenario for TdScen {
         let ks: Vec<u16> = (0..nn)
             .map(|_| match rng.below(6) {
                 0 => 10,
+                // the upper half of the u16 range is documented as valid too (rare: such a digest is
+                // exact for every stream the scenario can afford)
+                1 if rng.chance(1, 12) => *rng.pick(&[32767u16, 32768, 50000, 65535]),
                 1 => 500,
                 2 => 200,
                 _ => rng.range(10, 300) as u16,
